@@ -30,14 +30,15 @@ Print Assumptions C11_blocks.
 
 (* The walk over the pre-expanded flat file list with its leave-directory sentinels is the recursive
    encoding of the trees: given acknowledgements, the sender writes encode_list of its sources
-   (any depth, fan-out, sizes; sibling names distinct; a top-level name is not the sentinel). *)
+   (any depth, fan-out, sizes; sibling names distinct; a top-level name is not the sentinel).
+   sent_entry c = the source under the name sent: for a reverse copy (pdcp -Z host) ".host" is appended
+   to the names the user gave. *)
 Theorem C11_sender_stream : forall c (l : list src) rs,
-  cc_suffix c = None ->
   (forall pre k n, In (pre, k, n) l ->
      wf_names n /\ lookup (cc_fs c) (cc_cwd c ++ pre ++ [k]) = Some n /\ (pre <> [] \/ beq k sentinel = false)) ->
-  client c (top_files l) (repeat Ack (1 + n_acks_list (cc_preserve c) (map src_entry l)) ++ rs) =
-  encode_list (cc_preserve c) (map src_entry l).
-Proof. intros c l rs H. exact (client_all_acks c H l rs). Qed.
+  client c (top_files l) (repeat Ack (1 + n_acks_list (cc_preserve c) (map (sent_entry c) l)) ++ rs) =
+  encode_list (cc_preserve c) (map (sent_entry c) l).
+Proof. intros c l rs. exact (client_all_acks c l rs). Qed.
 Print Assumptions C11_sender_stream.
 
 (* C11_roundtrip.  For ALL source trees (depth, fan-out, file sizes, all 12 mode bits, with and without -p)
@@ -48,20 +49,20 @@ Print Assumptions C11_sender_stream.
    (names, structure, bytes; with -p - and the directory-mode repair - permission bits and mtimes), and
    nothing else in the tree changes. *)
 Theorem C11_roundtrip : forall cfg c fs (l : list src) dp t dm dt de,
-  cc_suffix c = None -> cc_preserve c = c_preserve cfg ->
+  cc_preserve c = c_preserve cfg ->
   (forall pre k n, In (pre, k, n) l ->
      lookup (cc_fs c) (cc_cwd c ++ pre ++ [k]) = Some n /\ (pre <> [] \/ beq k sentinel = false)) ->
-  wf_src_list cfg (map src_entry l) -> names_distinct (map src_entry l) ->
-  fits_list (length (c_dest cfg)) (map src_entry l) ->
-  (forall k v, In (k, v) (map src_entry l) -> assoc k de = None) ->
+  wf_src_list cfg (map (sent_entry c) l) -> names_distinct (map (sent_entry c) l) ->
+  fits_list (length (c_dest cfg)) (map (sent_entry c) l) ->
+  (forall k v, In (k, v) (map (sent_entry c) l) -> assoc k de = None) ->
   resolve fs (c_cwd cfg) (c_dest cfg) = ROk dp t -> lookup fs dp = Some (Dir dm dt de) ->
   (c_preserve cfg = true -> c_dirmode cfg = true) ->
   exists stream w' copies dt',
     sink cfg fs stream = (w', RetEnd) /\
     client c (top_files l) (seen_replies w') = stream /\
-    replies w' = repeat Ack (1 + n_acks_list (c_preserve cfg) (map src_entry l)) /\ w_in w' = [] /\
+    replies w' = repeat Ack (1 + n_acks_list (c_preserve cfg) (map (sent_entry c) l)) /\ w_in w' = [] /\
     lookup (w_fs w') dp = Some (Dir dm dt' (de ++ copies)) /\
-    faithful_list cfg (map src_entry l) copies /\
+    faithful_list cfg (map (sent_entry c) l) copies /\
     set_at fs dp (Dir dm dt' (de ++ copies)) = Some (w_fs w').
 Proof. exact copy_roundtrip. Qed.
 Print Assumptions C11_roundtrip.
@@ -70,14 +71,14 @@ Print Assumptions C11_roundtrip.
    is tried, accepted iff the sender reproduces it from the receiver's actual answers, else the iterated exchange)
    is, on the inputs of C11_roundtrip, the receiver's run on the encoded forest. *)
 Theorem C11_check_model : forall cfg c fs (l : list src) dp t dm dt de,
-  cc_suffix c = None -> cc_preserve c = c_preserve cfg ->
+  cc_preserve c = c_preserve cfg ->
   (forall pre k n, In (pre, k, n) l ->
      lookup (cc_fs c) (cc_cwd c ++ pre ++ [k]) = Some n /\ (pre <> [] \/ beq k sentinel = false)) ->
-  wf_src_list cfg (map src_entry l) -> names_distinct (map src_entry l) ->
-  fits_list (length (c_dest cfg)) (map src_entry l) ->
-  (forall k v, In (k, v) (map src_entry l) -> assoc k de = None) ->
+  wf_src_list cfg (map (sent_entry c) l) -> names_distinct (map (sent_entry c) l) ->
+  fits_list (length (c_dest cfg)) (map (sent_entry c) l) ->
+  (forall k v, In (k, v) (map (sent_entry c) l) -> assoc k de = None) ->
   resolve fs (c_cwd cfg) (c_dest cfg) = ROk dp t -> lookup fs dp = Some (Dir dm dt de) ->
-  copy cfg fs c (top_files l) = sink cfg fs (encode_list (c_preserve cfg) (map src_entry l)).
+  copy cfg fs c (top_files l) = sink cfg fs (encode_list (c_preserve cfg) (map (sent_entry c) l)).
 Proof. exact copy_is_sink_encode. Qed.
 Print Assumptions C11_check_model.
 
@@ -109,17 +110,22 @@ Proof. exact refused_isolated. Qed.
 (* the hypotheses of C11_roundtrip are met by an ordinary copy (pdcp -r -p tree .), whose result through
    the composed models is the source tree with all modes and times *)
 Example C11_nonvacuous :
-  (cc_suffix ex_cc = None /\ cc_preserve ex_cc = c_preserve ex_cfg /\
+  (cc_preserve ex_cc = c_preserve ex_cfg /\
    (forall pre k n, In (pre, k, n) ex_l ->
       lookup (cc_fs ex_cc) (cc_cwd ex_cc ++ pre ++ [k]) = Some n /\ (pre <> [] \/ beq k sentinel = false)) /\
-   wf_src_list ex_cfg (map src_entry ex_l) /\ names_distinct (map src_entry ex_l) /\
-   fits_list (length (c_dest ex_cfg)) (map src_entry ex_l) /\
-   (forall k v, In (k, v) (map src_entry ex_l) -> assoc k [] = None) /\
+   wf_src_list ex_cfg (map (sent_entry ex_cc) ex_l) /\ names_distinct (map (sent_entry ex_cc) ex_l) /\
+   fits_list (length (c_dest ex_cfg)) (map (sent_entry ex_cc) ex_l) /\
+   (forall k v, In (k, v) (map (sent_entry ex_cc) ex_l) -> assoc k [] = None) /\
    resolve fs_plain (c_cwd ex_cfg) (c_dest ex_cfg) = ROk [n_h] true /\
    lookup fs_plain [n_h] = Some (Dir 493 None []) /\
    (c_preserve ex_cfg = true -> c_dirmode ex_cfg = true)) /\
   at_ (run true true true fs_plain) [n_h; n_tree] =
   Some (Dir 1517 (Some 1000000000%Z)
             [(n_sub, Dir 493 (Some 1000000001%Z) [(n_b, File 420 (Some 1000000002%Z) [66])]);
-             (n_z, File 384 (Some 1000000003%Z) [90; 90])]).
-Proof. exact (conj ex_hyps plain_copy). Qed.
+             (n_z, File 384 (Some 1000000003%Z) [90; 90])]) /\
+  (* a reverse copy: `rpdcp z o` from host h leaves o/z.h with mode and time (-p) *)
+  match run_copy true true true true true 18 4096 [n_h] [[n_z]] (Some n_h) [] [111] fs_rev with
+  | Some (w, _) => lookup (w_fs w) [[111]; n_z ++ [46] ++ n_h]
+  | None => None
+  end = Some (File 416 (Some 1000000003%Z) [90; 90]).
+Proof. exact (conj ex_hyps (conj plain_copy reverse_copy)). Qed.
